@@ -8,6 +8,7 @@ is what it claims to be and that the executable matcher the driver runs is that 
 -/
 import RegexVerif.Lemmas.Spec
 import RegexVerif.Lemmas.Backtrack
+import RegexVerif.Lemmas.Writer
 
 namespace RegexVerif.Props.C01
 open RegexVerif RegexVerif.Spec
@@ -127,5 +128,234 @@ def demoPat : Pat :=
 example : find demoEnv demoPat false 0 = some { pos := 4, caps := [(1, 0, 1), (2, 1, 3), (0, 0, 4)] } := by decide
 example : findRun demoEnv demoPat false 0 = find demoEnv demoPat false 0 := by decide
 example : find demoEnv (.chr (.one 120 false)) false 0 = none := by decide
+
+/-! ## writer — the bytecode writer `syntax/writer.go` (Model/Writer.lean, tied to `syntax.Write` by leg Wr)
+
+`Writer.emit ti root` is the program `syntax.Write` produces for a reduced tree (`Codes`, string and set
+tables, `TrackCount`, `Capsize`, `Caps`), `Writer.emitNode cfg a tb n` the instructions of the sub-tree
+`n` when its first word is at code offset `a`.  Leg Wr compares `emit` with the Go writer word for
+word on every explored pattern; the theorems below hold for every tree. -/
+section writer
+open RegexVerif.Writer RegexVerif.Generated.Opcodes
+
+/-- **(a) Sizes are structural.**  The code of a sub-tree has exactly `size cfg n` words wherever it is
+    placed and whatever the tables contain: `size` is what the counting pass of `codeFromTree` adds to
+    `w.count`, so every offset the writer patches into a jump is a sum of sizes. -/
+theorem emit_size (cfg : Cfg) (n : GoNode) (a : Nat) (tb : Tables) :
+    (flatten (emitNode cfg a tb n).1).length = size cfg n := by
+  rw [flatten_length]; exact emitNode_size cfg n a tb
+
+/-- the whole program: `Lazybranch` (2 words), the root's fragment, `Stop` -/
+theorem emit_size_program (ti : TreeInfo) (root : GoNode) :
+    (emit ti root).codes.size = size (mainCfg ti) root + 3 := by
+  simp only [emit, List.size_toArray, flatten_length]
+  exact codeFromTree_len _ _
+
+/-- **(b) The code of a node is a fixed frame around the code of its children, placed at the
+    consecutive offsets.**  `Concatenate` is the concatenation of its children's code; `Alternate` frames
+    every branch but the last by `Lazybranch next … Goto end`; `Loop`/`Lazyloop`, `Capture`, the lookarounds,
+    `Atomic` and the conditionals put their head before and their tail after the child code, whose own
+    offset is the node's offset plus the head length. -/
+theorem emit_compositional (cfg : Cfg) (a : Nat) (tb : Tables) :
+    (∀ c cs, (emitNode cfg a tb (.concat (c :: cs))).1 =
+        (emitNode cfg a tb c).1 ++ (emitNode cfg (a + size cfg c) (emitNode cfg a tb c).2 (.concat cs)).1) ∧
+    (∀ c d ds fin, (emitAlt cfg a fin tb (c :: d :: ds)).1 =
+        [i1 opLazybranch ((a + 2 + size cfg c + 2 : Nat) : Int)] ++ (emitNode cfg (a + 2) tb c).1 ++ [i1 opGoto (fin : Int)] ++
+          (emitAlt cfg (a + 2 + size cfg c + 2) fin (emitNode cfg (a + 2) tb c).2 (d :: ds)).1) ∧
+    (∀ cs, (emitNode cfg a tb (.alt cs)).1 = (emitAlt cfg a (a + size cfg (.alt cs)) tb cs).1) ∧
+    (∀ m n c, emitCapture cfg m n = true → (emitNode cfg a tb (.capture m n c)).1 =
+        [i0 opSetmark] ++ (emitNode cfg (a + 1) tb c).1 ++ [i2 opCapturemark (mapCapnum cfg m) (mapCapnum cfg n)]) ∧
+    (∀ m n c, emitCapture cfg m n = false → emitNode cfg a tb (.capture m n c) = emitNode cfg a tb c) ∧
+    (∀ c, emitNode cfg a tb (.group c) = emitNode cfg a tb c) ∧
+    (∀ c, (emitNode cfg a tb (.poslook c)).1 =
+        [i0 opSetjump, i0 opSetmark] ++ (emitNode cfg (a + 2) tb c).1 ++ [i0 opGetmark, i0 opForejump]) ∧
+    (∀ c, (emitNode cfg a tb (.neglook c)).1 =
+        [i0 opSetjump, i1 opLazybranch ((a + 3 + size cfg c + 1 : Nat) : Int)] ++ (emitNode cfg (a + 3) tb c).1 ++
+          [i0 opBackjump, i0 opForejump]) ∧
+    (∀ c, (emitNode cfg a tb (.atomic c)).1 = [i0 opSetjump] ++ (emitNode cfg (a + 1) tb c).1 ++ [i0 opForejump]) ∧
+    (∀ lzy n c, n < maxInt32 → (emitNode cfg a tb (.loop lzy 0 n c)).1 =
+        [i1 opNullcount 0, i1 opGoto ((a + 4 + size cfg c : Nat) : Int)] ++ (emitNode cfg (a + 4) tb c).1 ++
+          [i2 (opBranchcount + (if lzy then 1 else 0)) ((a + 4 : Nat) : Int) n]) ∧
+    (∀ lzy c, (emitNode cfg a tb (.loop lzy 0 maxInt32 c)).1 =
+        [i0 opNullmark, i1 opGoto ((a + 3 + size cfg c : Nat) : Int)] ++ (emitNode cfg (a + 3) tb c).1 ++
+          [i1 (opBranchmark + (if lzy then 1 else 0)) ((a + 3 : Nat) : Int)]) ∧
+    (∀ lzy c, (emitNode cfg a tb (.loop lzy 1 maxInt32 c)).1 =
+        [i0 opSetmark] ++ (emitNode cfg (a + 1) tb c).1 ++ [i1 (opBranchmark + (if lzy then 1 else 0)) ((a + 1 : Nat) : Int)]) ∧
+    (∀ m y n, (emitNode cfg a tb (.backrefcond2 m y n)).1 =
+        [i0 opSetjump, i1 opLazybranch ((a + 6 + size cfg y + 2 : Nat) : Int), i1 opTestref (mapCapnum cfg m), i0 opForejump] ++
+          (emitNode cfg (a + 6) tb y).1 ++ [i1 opGoto ((a + 6 + size cfg y + 3 + size cfg n : Nat) : Int), i0 opForejump] ++
+          (emitNode cfg (a + 6 + size cfg y + 3) (emitNode cfg (a + 6) tb y).2 n).1) ∧
+    (∀ c y n, (emitNode cfg a tb (.exprcond3 c y n)).1 =
+        [i0 opSetjump, i0 opSetmark, i1 opLazybranch ((a + 4 + size cfg c + 2 + size cfg y + 2 : Nat) : Int)] ++
+          (emitNode cfg (a + 4) tb c).1 ++ [i0 opGetmark, i0 opForejump] ++
+          (emitNode cfg (a + 4 + size cfg c + 2) (emitNode cfg (a + 4) tb c).2 y).1 ++
+          [i1 opGoto ((a + 4 + size cfg c + 2 + size cfg y + 4 + size cfg n : Nat) : Int), i0 opGetmark, i0 opForejump] ++
+          (emitNode cfg (a + 4 + size cfg c + 2 + size cfg y + 4)
+            (emitNode cfg (a + 4 + size cfg c + 2) (emitNode cfg (a + 4) tb c).2 y).2 n).1) := by
+  refine ⟨?_, ?_, ?_, ?_, ?_, ?_, ?_, ?_, ?_, ?_, ?_, ?_, ?_, ?_⟩
+  · intro c cs; simp [emitNode, emitList]
+  · intro c d ds fin; simp [emitAlt]
+  · intro cs; simp [emitNode, size]
+  · intro m n c h; simp [emitNode, h]
+  · intro m n c h; simp [emitNode, h]
+  · intro c; simp [emitNode]
+  · intro c; simp [emitNode]
+  · intro c; simp [emitNode]
+  · intro c; simp [emitNode]
+  · intro lzy n c h
+    have hc : counted 0 n = true := by simp [counted, h]
+    have hne : n ≠ maxInt32 := by omega
+    simp [emitNode, hc, loopHeadLen, repArg, hne]
+  · intro lzy c
+    have hc : counted 0 maxInt32 = false := by decide
+    simp [emitNode, hc, loopHeadLen]
+  · intro lzy c
+    have hc : counted 1 maxInt32 = false := by decide
+    simp [emitNode, hc, loopHeadLen]
+  · intro m y n; simp [emitNode]
+  · intro c y n; simp [emitNode]
+
+/-- **(b, locality) Jumps stay inside the fragment and land on its instruction boundaries.**  For a tree the
+    writer accepts, every jump operand emitted for the sub-tree `n` placed at `a` is the first word of an
+    instruction of that same fragment or the offset just behind it — in particular it lies in
+    `[a, a + size n]`.  A fragment can therefore be relocated or reasoned about without knowing its
+    surroundings. -/
+theorem emit_jumps_local (cfg : Cfg) (n : GoNode) (a : Nat) (tb : Tables) (h : n.ok = true) :
+    ∀ i ∈ (emitNode cfg a tb n).1, ∀ t ∈ i.targets,
+      ∃ k : Nat, t = (k : Int) ∧ k ∈ starts a (emitNode cfg a tb n).1 ∧ a ≤ k ∧ k ≤ a + size cfg n := by
+  intro i hi t ht
+  obtain ⟨k, hk, e⟩ := emitNode_jumps cfg n a tb h i hi t ht
+  have hb := mem_starts_bounds _ a k hk
+  rw [emitNode_size] at hb
+  exact ⟨k, e, hk, hb.1, hb.2⟩
+
+/-- **(c, instruction level) The emitted program is well-formed.**  For a tree with known node types and
+    group numbers that map into the capture array (`GoNode.ok`, `capsOk`: two of the three clauses of the
+    `treeWf` that leg Wr evaluates on every parsed tree): every instruction has the operand count
+    `opcodeSize` gives its opcode (so `Codes` splits into exactly these instructions), string / set
+    operands index the emitted tables, capture operands are slots below `Capsize` (or −1 where the
+    interpreter allows it), every jump operand is the first word of an instruction of the program, the first
+    instruction is `Lazybranch` and the last is `Stop`. -/
+theorem emit_wf_instructions (ti : TreeInfo) (root : GoNode) (hok : root.ok = true)
+    (hcaps : capsOk (mainCfg ti) (capsize ti) root = true) :
+    (∀ i ∈ mainCode ti root,
+      i.localOk (emit ti root).strings.size (emit ti root).nsets (emit ti root).capsize = true) ∧
+    (∀ i ∈ mainCode ti root, ∀ t ∈ i.targets, ∃ k ∈ istarts 0 (mainCode ti root), t = (k : Int)) ∧
+    ((mainCode ti root).head?.map Instr.opcode = some opLazybranch) ∧
+    ((mainCode ti root).getLast?.map Instr.opcode = some opStop) ∧
+    (emit ti root).codes.toList = flatten (mainCode ti root) := by
+  refine ⟨?_, ?_, ?_, ?_, ?_⟩
+  · intro i hi
+    have := codeFromTree_local (mainCfg ti) (capsize ti) root hok hcaps i hi
+    simpa [emit] using this
+  · exact codeFromTree_jumps (mainCfg ti) root hok
+  · simp only [mainCode, codeFromTree, List.cons_append, List.nil_append, List.head?_cons, Option.map_some]; rfl
+  · simp only [mainCode, codeFromTree, List.getLast?_concat, Option.map_some]; rfl
+  · simp [emit, mainCode]
+
+/-- **(c) `emit_wf`: the program of every well-formed tree passes the executable check `wfProg`.**  Under the
+    tree well-formedness the parser guarantees (`treeWf`, evaluated by leg Wr on every parsed tree):
+    `Code.Prog.boundaries` succeeds (every opcode known, no truncated instruction), string / set operands are
+    in range, capture operands are below `Capsize` (or −1), every jump target is an instruction boundary,
+    the program starts with `Lazybranch` and ends with `Stop`.  (For the bool-only program the same check is
+    evaluated by leg Wr on every explored pattern; its proof needs in addition that both writers build the
+    same tables.) -/
+theorem emit_wf (ti : TreeInfo) (root : GoNode) (h : treeWf ti root = true) : wfProg (emit ti root) = true := by
+  simp only [treeWf, Bool.and_eq_true] at h
+  obtain ⟨⟨hok, hcaps⟩, _⟩ := h
+  obtain ⟨h1, h2, h3, h4, _⟩ := emit_wf_instructions ti root hok hcaps
+  exact wfProg_progOf (mainCode ti root) _ _ _ _ _ _ h1 h2 h3 h4
+
+/-- **(d) `TrackCount` is the number of backtracking instructions, and `Nullmark` is paid for by `Goto`.**
+    Decoding `Codes` with the regenerated `opcodeSize` table (C13's `Capacity.decode`) succeeds, the
+    number of decoded opcodes with `opcodeBacktracks` is exactly `TrackCount`, and there are at least as many
+    `Goto` as `Nullmark` instructions — the hypothesis `hpair` of `Props.C13.potential_le_need`, here for
+    every program the writer emits. -/
+theorem emit_trackcount (ti : TreeInfo) (root : GoNode) (hok : root.ok = true)
+    (hcaps : capsOk (mainCfg ti) (capsize ti) root = true) :
+    ∃ ops, Capacity.decode (emit ti root).codes.size (emit ti root).codes.toList = some ops ∧
+      Capacity.trackCount ops = (emit ti root).trackcount ∧
+      Capacity.count opNullmark ops ≤ Capacity.count opGoto ops := by
+  refine ⟨(mainCode ti root).map Instr.opcode, ?_, ?_, ?_⟩
+  · have hl := codeFromTree_local (mainCfg ti) (capsize ti) root hok hcaps
+    have ha : ∀ i ∈ mainCode ti root, i.arityOk = true := by
+      intro i hi
+      have := hl i hi
+      simp only [Instr.localOk, Bool.and_eq_true] at this
+      exact this.1.1.1.1
+    simp only [emit, List.size_toArray]
+    refine decode_flatten _ _ ha ?_
+    rw [flatten_length]
+    exact (by
+      have : ∀ c : Code, c.length ≤ codeLen c := by
+        intro c; induction c with
+        | nil => simp
+        | cons i r ih => simp only [List.length_cons, codeLen_cons]; omega
+      exact this _)
+  · simp only [emit]; exact trackCount_map _
+  · exact codeFromTree_pairing (mainCfg ti) root hok
+
+/-- **(e) The bool-only program is the main writer run on the tree with the unobservable captures
+    stripped.**  `QuickCodes` (when present) is word for word the code the main writer emits for
+    `stripTree`, the tree in which every `Capture` whose mark pair `emitCapture` drops has become a plain
+    group — the tree-level image of `Spec.stripCaps` (Model/Quick.lean); nothing else differs, tables and
+    offsets included. -/
+theorem emitQuick_eq_emit_strip (ti : TreeInfo) (root : GoNode) (q : List Int) (h : quickCodes ti root = some q) :
+    q = (emit ti (stripTree (quickCfg ti root) root)).codes.toList ∧
+      (codeFromTree (quickCfg ti root) root).2 = (codeFromTree (mainCfg ti) (stripTree (quickCfg ti root) root)).2 := by
+  simp only [quickCodes] at h
+  split at h
+  · simp only [Option.some.injEq] at h
+    subst h
+    simp only [emit, codeFromTree, quickCfg, mainCfg]
+    rw [emitNode_strip, size_strip]
+    simp
+  · simp at h
+
+/-- the mark pair of an ordinary capture survives in the bool-only program exactly when its slot is in use
+    (or lies outside the slot table); balancing captures always survive -/
+theorem emitQuick_keeps (caps : Option (List (Int × Int))) (q : List Bool) (m n : Int) :
+    emitCapture ⟨caps, some q⟩ m n =
+      (mapCapnum ⟨caps, none⟩ n != -1 ||
+        (mapCapnum ⟨caps, none⟩ m ≥ 0 &&
+          (mapCapnum ⟨caps, none⟩ m ≥ q.length || q.getD (mapCapnum ⟨caps, none⟩ m).toNat false))) := by
+  simp only [emitCapture]
+  rw [mapCapnum_quick caps (some q) n, mapCapnum_quick caps (some q) m]
+  by_cases h : mapCapnum ⟨caps, none⟩ n = -1 <;> simp [h]
+
+/-! ### non-vacuity (writer): two concrete trees -/
+
+/-- `(?:a|(b))*cd\1` with `\1` case-insensitive: root capture, loop with minimum 0 over an alternation, a
+    string, a back-reference -/
+def wrDemo : GoNode :=
+  .capture 0 (-1) (.concat [.loop false 0 maxInt32 (.alt [.char opOne false false 97, .capture 1 (-1) (.char opOne false false 98)]),
+    .multi false false [99, 100], .ref false true 1])
+def wrDemoInfo : TreeInfo := { captop := 2, capnumlist := none, caps := [(0, 0), (1, 5)], rtl := false }
+
+/-- sparse numbering (groups 0, 2, 5), a set, a lazy counted loop over a set loop, a negative lookbehind:
+    group 5 and group 2 are never referenced, so a bool-only program exists -/
+def wrDemo2 : GoNode :=
+  .capture 0 (-1) (.concat [.capture 5 (-1) (.set false false [0, 1, 2]),
+    .loop true 2 5 (.capture 2 (-1) (.setloop opSetloop false false [0, 1, 2] 1 maxInt32)), .neglook (.multi true false [97, 98])])
+def wrDemoInfo2 : TreeInfo := { captop := 6, capnumlist := some [0, 2, 5], caps := [(0, 0), (2, 7), (5, 3)], rtl := false }
+
+example : (emit wrDemoInfo wrDemo).codes.toList =
+    [23, 27, 31, 30, 38, 18, 23, 12, 9, 97, 38, 18, 31, 9, 98, 32, 1, -1, 24, 6, 12, 0, 525, 1, 32, 0, -1, 40] := by decide
+example : size (mainCfg wrDemoInfo) wrDemo = 25 ∧ (emit wrDemoInfo wrDemo).trackcount = 9 := by decide
+example : wrDemo.ok = true ∧ capsOk (mainCfg wrDemoInfo) (capsize wrDemoInfo) wrDemo = true ∧ treeWf wrDemoInfo wrDemo = true := by decide
+example : wfProg (emit wrDemoInfo wrDemo) = true := by decide
+example : (emit wrDemoInfo2 wrDemo2).codes.toList =
+    [23, 34, 31, 31, 11, 0, 32, 2, -1, 27, -1, 31, 2, 0, 1, 5, 0, 2147483647, 32, 1, -1, 29, 11, 3, 34, 23, 30,
+     76, 0, 35, 36, 32, 0, -1, 40] ∧ (emit wrDemoInfo2 wrDemo2).caps = [(0, 0), (2, 1), (5, 2)] := by decide
+example : treeWf wrDemoInfo2 wrDemo2 = true ∧ wfProg (emit wrDemoInfo2 wrDemo2) = true := by decide
+example : quickCodes wrDemoInfo2 wrDemo2 =
+    some [23, 26, 31, 11, 0, 27, -1, 2, 0, 1, 5, 0, 2147483647, 29, 7, 3, 34, 23, 22, 76, 0, 35, 36, 32, 0, -1, 40] := by decide
+example : (emit wrDemoInfo2 (stripTree (quickCfg wrDemoInfo2 wrDemo2) wrDemo2)).codes.toList =
+    [23, 26, 31, 11, 0, 27, -1, 2, 0, 1, 5, 0, 2147483647, 29, 7, 3, 34, 23, 22, 76, 0, 35, 36, 32, 0, -1, 40] := by decide
+/-- a jump of the demo program and its target: the `Goto` at 4 goes to the `Branchmark` at 18 -/
+example : (i1 opGoto 18) ∈ mainCode wrDemoInfo wrDemo ∧ (i1 opGoto 18).targets = [18] ∧ 18 ∈ istarts 0 (mainCode wrDemoInfo wrDemo) := by
+  decide
+
+end writer
 
 end RegexVerif.Props.C01
